@@ -75,7 +75,7 @@ enum Codec {
 
 pub struct CodecWFamily;
 
-struct CodecWExec {
+pub(crate) struct CodecWExec {
     codec: Codec,
     /// a second arena, not the codec's own: source of "foreign" anchored input
     foreign: Option<ByteArena>,
@@ -83,18 +83,18 @@ struct CodecWExec {
     base_ordinal: u64,
     base_chunks: usize,
     base_bytes: usize,
-    limits: (usize, usize),
-    is_enc: bool,
-    failed: bool,
+    pub(crate) limits: (usize, usize),
+    pub(crate) is_enc: bool,
+    pub(crate) failed: bool,
     max_lag: usize,
     max_live: usize,
     fed: usize,
     /// everything logically fed so far (payloads, and the bytes readers actually delivered)
-    logical_input: Vec<u8>,
+    pub(crate) logical_input: Vec<u8>,
     /// everything drained so far
-    drained: Vec<u8>,
+    pub(crate) drained: Vec<u8>,
     /// what the iovec handed to `new_from_iovec` already held
-    prefill: Vec<u8>,
+    pub(crate) prefill: Vec<u8>,
     /// a feed has not been followed by `drain_all` yet
     undrained: bool,
     /// every feed so far was followed by `drain_all` before the next one (the streaming regime of C10)
@@ -163,7 +163,7 @@ impl CodecWExec {
         }
     }
 
-    fn with_consumer<R>(&mut self, f: impl FnOnce(&mut ConsumingIovec<'_>) -> R) -> Option<R> {
+    pub(crate) fn with_consumer<R>(&mut self, f: impl FnOnce(&mut ConsumingIovec<'_>) -> R) -> Option<R> {
         match &mut self.codec {
             Codec::Enc(e) => Some(f(&mut e.consumer())),
             Codec::VEnc(e) => Some(f(&mut e.consumer())),
@@ -678,6 +678,10 @@ impl Exec for CodecWExec {
 
     fn panic_violation(&self, w: &[&str]) -> Option<String> {
         Some(format!("C07 unexpected panic in {}", w.first().copied().unwrap_or("?")))
+    }
+
+    fn as_any_mut(&mut self) -> Option<&mut dyn std::any::Any> {
+        Some(self)
     }
 }
 
